@@ -6,8 +6,9 @@
 //!
 //!   <opt>     s | p | S | P            strict / permissive, capital = skip_magic_bytes
 //!   <fl>      - | <u64>                ParseOptions::file_len
-//!   <env>     <mode>[,c][,b<n>]        mode: n | h<k> | e<k> | i<k>   (no fault / hard error at byte k /
-//!                                      reads at or beyond byte k return Ok(0) / one `Interrupted` at byte k);
+//!   <env>     <mode>[,c][,b<n>]        mode: n | h<k> | e<k> | i<k> | t<k>  (no fault / hard error at byte k /
+//!                                      reads at or beyond byte k return Ok(0) / one `Interrupted` at byte k /
+//!                                      one `Ok(0)` at byte k, only with L m r A operations);
 //!                                      c = `seek` clamps to the end of the file, b<n> = reads deliver <= n bytes
 //!   <prefix>  - | item(,item)*         the first bytes of the file: hex word (LE u32) | z<n> (n zero words) |
 //!                                      x<hex> (raw bytes)
@@ -56,6 +57,8 @@ pub enum Mode {
     Hard(u64),
     Eof(u64),
     Intr(u64),
+    /// `Ok(0)` once, by the first read at or beyond this offset, although the stream goes on
+    EofOnce(u64),
 }
 
 pub struct HReader {
@@ -106,6 +109,16 @@ impl Read for HReader {
                     if self.pos >= k {
                         self.intr_done = true;
                         return Err(std::io::Error::new(std::io::ErrorKind::Interrupted, "interrupted"));
+                    }
+                    lim = lim.min(k);
+                }
+            }
+            Mode::EofOnce(k) => {
+                if !self.intr_done {
+                    if self.pos >= k {
+                        self.intr_done = true;
+                        self.eof_hit = true;
+                        return Ok(0);
                     }
                     lim = lim.min(k);
                 }
@@ -273,6 +286,7 @@ fn parse_env(s: &str) -> Option<EnvSpec> {
             b'h' => Mode::Hard(k),
             b'e' => Mode::Eof(k),
             b'i' => Mode::Intr(k),
+            b't' => Mode::EofOnce(k),
             _ => return None,
         }
     };
@@ -562,6 +576,12 @@ fn run_case(line: &str) -> Option<(String, Vec<String>)> {
     let ops: Vec<Op> = t[6..].iter().map(|s| parse_op(s)).collect::<Option<Vec<_>>>()?;
     if !ops.iter().all(op_ok) {
         return None;
+    }
+    // a transient end of file is only combined with full reads (then an `Io` result means it was consumed)
+    if let Mode::EofOnce(_) = env.mode {
+        if !ops.iter().all(|o| matches!(o, Op::Layout | Op::Limit(_) | Op::Read { .. } | Op::All { .. })) {
+            return None;
+        }
     }
 
     let mut out: Vec<String> = vec![];
@@ -1444,6 +1464,54 @@ pub fn gen(seed: u64, thorough: bool) -> Vec<String> {
         }
     }
 
+    // ---- (e3) lines longer than the 64 KiB line buffer, with all their data
+    for (w, h, dxgi) in [
+        (5000u32, 2u32, 2u32), // RGBA32F: 80 000 bytes per line
+        (70000, 1, 61),        // R8
+        (66000, 3, 61),
+        (16385, 2, 28),        // RGBA8, one pixel over 64 KiB
+        (16384, 2, 28),        // exactly 64 KiB
+        (70000, 5, 71),        // BC1: 140 000 bytes per block line
+        (40000, 3, 103),       // NV12
+        (33000, 2, 107),       // YUY2
+        (600000, 1, 66),       // R1
+        (21846, 2, 6),         // RGB32F
+    ] {
+        let h0 = dx10(w, h, None, 1, dxgi, 3, 0, 1, 0);
+        if let Some(dl) = data_len_of(&h0) {
+            let file = file_of(&h0);
+            let c = (w as usize) % 12;
+            let ops = format!("A{c} z m0 r{c} m100000 r{} m33000000 q{c}:{}:0:7:{h} p q3:0:{}:{w}:1 p r{}p", (c + 4) % 12, w - 9, h - 1, (c + 8) % 12);
+            g.push("s", "-", "n", &file, Some((dl as usize, w as u64)), &ops);
+            g.push("s", "-", "n,b4096", &file, Some((dl as usize - 1, w as u64)), &ops);
+            g.push("s", "-", &format!("h{}", 148 + dl / 2), &file, Some((dl as usize, w as u64)), &ops);
+        }
+    }
+
+    // ---- (f2) a transient end of file inside plane 1 / a line of a surface, file longer than the surface
+    for (fi, (_, f)) in formats.iter().enumerate() {
+        for s in 0..(if thorough { 12 } else { 2 }) {
+            let w = g.rng.range(1, 12) as u32;
+            let hh = g.rng.range(1, 12) as u32;
+            let h0 = Header::new_image(w, hh, *f);
+            let dl = match data_len_of(&h0) {
+                Some(d) => d,
+                None => continue,
+            };
+            let hb = file_of(&h0);
+            let e1 = match formats[fi].0 {
+                "NV12" => 1,
+                "P010" | "P016" => 2,
+                _ => 0,
+            };
+            // bi-planar: one byte before the end of plane 1
+            let k = hb.len() as u64 + if s % 2 == 1 && e1 > 0 { w as u64 * hh as u64 * e1 - 1 } else { g.rng.below(dl + 1) };
+            let c = (fi + s) % 12;
+            let env = format!("t{k}{}", ["", ",b1", ",b7"][s % 3]);
+            g.push("s", "-", &env, &hb, Some((2 * dl as usize + 40, fi as u64)), &format!("r{c} r{c} A{}", (c + 1) % 12));
+        }
+    }
+
     // ---- (e2) surfaces too large to decode: parsed, laid out, skipped
     for (w, h, dxgi, mips, arr) in [
         (65535u32, 65535u32, 28u32, 1u32, 1u32),
@@ -1460,10 +1528,14 @@ pub fn gen(seed: u64, thorough: bool) -> Vec<String> {
         (4096, 4096, 28, 13, 1),
         (2049, 2047, 71, 1, 2),
         (1, u32::MAX, 66, 1, 1),
+        (1073741823, 1073741825, 2, 1, 1), // 2^64 - 16 bytes: a skip count that is negative as i64
+        (1073741823, 1073741825, 2, 1, 0),
+        (2147483647, 2147483649, 74, 1, 1), // BC2: 2^64 - 16 bytes
+        (1073741825, 1431655766, 61, 1, 1), // 4w and 3h wrap to 4 and 2
     ] {
         for misc in [0u32, 4] {
             let file = file_of(&dx10(w, h, None, mips, dxgi, 3, misc, arr, 0));
-            for ops in ["L s s s s s", "L r3 q3:0:0:1:1 q0:5:5:2:2 s k k c3 A0", "L k s p z s s s p p", "L q3:4294967295:4294967295:1:1 q3:0:0:0:0 q7:1:1:0:5 s"] {
+            for ops in ["L s s s s s", "L c3:4:2 k s", "L k c0:4:2", "L r3 q3:0:0:1:1 q0:5:5:2:2 s k k c3 A0", "L k s p z s s s p p", "L q3:4294967295:4294967295:1:1 q3:0:0:0:0 q7:1:1:0:5 s"] {
                 let (o, fl) = g.opt_fl(file.len() as u64, false);
                 g.push(&o, &fl, "n", &file, Some((100, 1)), ops);
                 g.push(&o, &fl, "n,c", &file, Some((100, 1)), ops);
